@@ -155,6 +155,8 @@ static void rec_limits (FILE* o)
     LIMW (max); LIMW (lowest); LIMW (min); LIMW (denorm_min); LIMW (epsilon); LIMW (round_error); LIMW (infinity);
     fprintf (o, ",\"qnan\":%u,\"snan\":%u", (unsigned) std::numeric_limits<half>::quiet_NaN ().bits (),
              (unsigned) std::numeric_limits<half>::signaling_NaN ().bits ());
+    fprintf (o, ",\"posInf\":%u,\"negInf\":%u,\"qNan\":%u,\"sNan\":%u", (unsigned) half::posInf ().bits (), (unsigned) half::negInf ().bits (),
+             (unsigned) half::qNan ().bits (), (unsigned) half::sNan ().bits ());
     LIMI (digits); LIMI (digits10); LIMI (max_digits10); LIMI (radix); LIMI (min_exponent); LIMI (max_exponent);
     LIMI (min_exponent10); LIMI (max_exponent10); LIMI (is_signed); LIMI (is_integer); LIMI (is_exact);
     LIMI (has_infinity); LIMI (has_quiet_NaN); LIMI (has_signaling_NaN); LIMI (is_bounded); LIMI (is_modulo);
